@@ -22,10 +22,10 @@ type WSite struct {
 // Effects of one function. Keys are "p<i>.path", "fv<i>.path", "g:<pkg.name>.path",
 // or "?" for a store whose root cannot be named.
 type Effects struct {
-	may    map[string][]WSite
-	fields map[*types.Var]bool
-	calls  map[*ssa.Function]bool // static callees (incl. closures created)
-	invokes []ssa.CallInstruction // dynamic calls
+	may     map[string][]WSite
+	fields  map[*types.Var]bool
+	calls   map[*ssa.Function]bool // static callees (incl. closures created)
+	invokes []ssa.CallInstruction  // dynamic calls
 }
 
 func rootKey(fn *ssa.Function, r ssa.Value) (string, bool) {
@@ -511,81 +511,81 @@ func (c *Ctx) mustWrite0(fn *ssa.Function, assume func(*ssa.If) int, stack map[*
 		out[b] = o
 	}
 	for round := 0; round < 4; round++ {
-	if round > 0 {
-		grew := false
-		for _, l := range fi.loops {
-			var m map[string]bool
-			for _, la := range l.Latches {
-				if m == nil {
-					m = map[string]bool{}
-					for k := range out[la] {
-						m[k] = true
-					}
-				} else {
-					for k := range m {
-						if !out[la][k] {
-							delete(m, k)
+		if round > 0 {
+			grew := false
+			for _, l := range fi.loops {
+				var m map[string]bool
+				for _, la := range l.Latches {
+					if m == nil {
+						m = map[string]bool{}
+						for k := range out[la] {
+							m[k] = true
 						}
-					}
-				}
-			}
-			for k := range m {
-				if !gen[l.Header][k] {
-					gen[l.Header][k] = true
-					grew = true
-				}
-			}
-		}
-		if !grew {
-			break
-		}
-		for _, b := range fn.Blocks {
-			o := map[string]bool{}
-			for k := range universe {
-				o[k] = true
-			}
-			out[b] = o
-		}
-	}
-	for changed := true; changed; {
-		changed = false
-		for _, b := range fn.Blocks {
-			var in map[string]bool
-			if b == fn.Blocks[0] {
-				in = map[string]bool{}
-			} else {
-				first := true
-				for _, p := range b.Preds {
-					if pruned(p, b) {
-						continue
-					}
-					if first {
-						in = map[string]bool{}
-						for k := range out[p] {
-							in[k] = true
-						}
-						first = false
 					} else {
-						for k := range in {
-							if !out[p][k] {
-								delete(in, k)
+						for k := range m {
+							if !out[la][k] {
+								delete(m, k)
 							}
 						}
 					}
 				}
-				if in == nil { // unreachable under the assumption
-					continue
+				for k := range m {
+					if !gen[l.Header][k] {
+						gen[l.Header][k] = true
+						grew = true
+					}
 				}
 			}
-			for k := range gen[b] {
-				in[k] = true
+			if !grew {
+				break
 			}
-			if len(in) != len(out[b]) {
-				out[b] = in
-				changed = true
+			for _, b := range fn.Blocks {
+				o := map[string]bool{}
+				for k := range universe {
+					o[k] = true
+				}
+				out[b] = o
 			}
 		}
-	}
+		for changed := true; changed; {
+			changed = false
+			for _, b := range fn.Blocks {
+				var in map[string]bool
+				if b == fn.Blocks[0] {
+					in = map[string]bool{}
+				} else {
+					first := true
+					for _, p := range b.Preds {
+						if pruned(p, b) {
+							continue
+						}
+						if first {
+							in = map[string]bool{}
+							for k := range out[p] {
+								in[k] = true
+							}
+							first = false
+						} else {
+							for k := range in {
+								if !out[p][k] {
+									delete(in, k)
+								}
+							}
+						}
+					}
+					if in == nil { // unreachable under the assumption
+						continue
+					}
+				}
+				for k := range gen[b] {
+					in[k] = true
+				}
+				if len(in) != len(out[b]) {
+					out[b] = in
+					changed = true
+				}
+			}
+		}
 	}
 	// intersect over success returns
 	var res map[string]bool
@@ -826,7 +826,6 @@ func (c *Ctx) calleeAssume(fi *FuncInfo, call ssa.CallInstruction, callee *ssa.F
 		return pol
 	}
 }
-
 
 // fullRangeStore: ia indexes an unsliced container value X with the index of a
 // loop that runs over all of X (range form: phi from −1, index phi+1, bound
